@@ -57,6 +57,9 @@ type Job struct {
 	Shapes   []string `json:"shapes"` // hex: TLC shape inputs
 	NSeeded  int      `json:"nseeded"`
 	Corpus   []string `json:"corpus"` // hex: encoded messages (mutation bases)
+
+	Nest      *NestTable `json:"nest,omitempty"`       // schemas and target -> schema table of Cbor_Nest.tla
+	NestCases []NestCase `json:"nest_cases,omitempty"` // TLC cases with their verdict per schema
 }
 
 // Example is one concrete disagreement.
@@ -101,6 +104,12 @@ type SweepResult struct {
 	DistinctIn    int            `json:"distinct_input_classes"`
 	Skipped       int            `json:"skipped_after_resource_finding"`
 	Samples       []any          `json:"samples"`
+
+	NestInputs      int            `json:"nest_inputs"`        // cases of Cbor_Nest.tla cross-checked and run
+	NestControls    int            `json:"nest_controls"`      // (honest instance, target it is built for) pairs accepted by the library
+	NestCtlFailed   []string       `json:"nest_control_failed"` // ... refused: the instance / schema does not describe the target
+	NestMustRefuse  int            `json:"nest_must_refuse_calls"` // calls on (case, target) pairs the specification wants refused
+	NestBySchema    map[string]int `json:"nest_must_refuse_by_schema"`
 }
 
 type agg struct {
@@ -209,7 +218,10 @@ func decodeWhole(t *Target, b []byte) (o outcome) {
 	err := cbor.Unmarshal(b, t.New())
 	o.ok, o.consumed = err == nil, len(b)
 	if err != nil {
-		o.err = ""
+		o.err = err.Error()
+		if len(o.err) > 120 {
+			o.err = o.err[:120]
+		}
 	}
 	return
 }
@@ -237,7 +249,7 @@ func expectText(v V) string {
 }
 
 // judge applies the outcome rule of Cbor.tla (operator Allowed) plus the bstr .cbor rule.
-func judge(t *Target, mode string, b []byte, v V, o outcome) (kind string) {
+func judge(t *Target, mode string, b []byte, v V, o outcome, nv []int) (kind string) {
 	switch {
 	case o.pan != "":
 		return "panic"
@@ -251,8 +263,23 @@ func judge(t *Target, mode string, b []byte, v V, o outcome) (kind string) {
 		return "ok-trailing"
 	case t.Wrap && len(b) > 0 && b[0]>>5 == 2 && !v.W:
 		return "ok-wrap-inexact"
+	case mustRefuseNested(t, b, v, nv):
+		return "ok-nested-inexact"
 	}
 	return ""
+}
+
+// mustRefuseNested: Cbor_Nest.tla NestVerdict = 0 for the schema of the target: some nested position
+// (bstr .cbor) does not hold exactly one item. nv is TLC's verdict vector for inputs TLC printed; all
+// other inputs are judged by the schema interpreter (compared with TLC on every printed case).
+func mustRefuseNested(t *Target, b []byte, v V, nv []int) bool {
+	if t.Schema == nil {
+		return false
+	}
+	if nv != nil {
+		return nv[t.SchemaIdx] == 0
+	}
+	return NestVerdict(t.Schema, b, v) == 0
 }
 
 func keyOf(kind string, t *Target, b []byte, v V, o outcome) string {
@@ -295,6 +322,11 @@ type unitResult struct {
 	MaxCallMs  float64        `json:"max_call_ms"`
 	Hang       *callPos       `json:"hang,omitempty"`
 	Skipped    int            `json:"skipped"`
+
+	NestControls   int            `json:"nest_controls,omitempty"`
+	NestCtlFailed  []string       `json:"nest_ctl_failed,omitempty"`
+	NestMustRefuse int            `json:"nest_must_refuse,omitempty"`
+	NestBySchema   map[string]int `json:"nest_by_schema,omitempty"`
 }
 
 type callPos struct {
@@ -321,10 +353,13 @@ type plan struct {
 	nThree   int
 	nTable   int
 	nShapes  int
+	nNest    int
 	nSeeded  int
 	corpus   [][]byte
 	table3   [][]byte
 	shapes   [][]byte
+	nest     []NestCase
+	nestB    [][]byte
 }
 
 func newPlan(job *Job) *plan {
@@ -354,11 +389,30 @@ func newPlan(job *Job) *plan {
 		b, _ := hex.DecodeString(h)
 		p.corpus = append(p.corpus, b)
 	}
+	for _, c := range job.NestCases {
+		b, _ := hex.DecodeString(c.Hex)
+		p.nest = append(p.nest, c)
+		p.nestB = append(p.nestB, b)
+	}
+	p.nNest = (len(p.nest) + 127) / 128
 	p.nSeeded = (job.NSeeded + seededPerUnit - 1) / seededPerUnit
 	return p
 }
 
-func (p *plan) units() int { return p.nShort + p.nThree + p.nTable + p.nShapes + p.nSeeded }
+func (p *plan) units() int { return p.nShort + p.nThree + p.nTable + p.nShapes + p.nNest + p.nSeeded }
+
+// nestCases returns the TLC cases of unit u (nil: u is not a unit of Cbor_Nest.tla cases); they are the inputs of that unit.
+func (p *plan) nestCases(u int) []NestCase {
+	u -= p.nShort + p.nThree + p.nTable + p.nShapes
+	if u < 0 || u >= p.nNest {
+		return nil
+	}
+	hi := (u + 1) * 128
+	if hi > len(p.nest) {
+		hi = len(p.nest)
+	}
+	return p.nest[u*128 : hi]
+}
 
 // inputs returns the inputs of unit u and whether calls are metered one by one.
 func (p *plan) inputs(u int) (ins []Input, perCall bool) {
@@ -398,6 +452,13 @@ func (p *plan) inputs(u int) (ins []Input, perCall bool) {
 		return ins, true
 	}
 	u -= p.nShapes
+	if u < p.nNest {
+		for i := u * 128; i < (u+1)*128 && i < len(p.nest); i++ {
+			ins = append(ins, Input{"tlc-nest", p.nestB[i]})
+		}
+		return ins, false
+	}
+	u -= p.nNest
 	for i := u * seededPerUnit; i < (u+1)*seededPerUnit && i < p.job.NSeeded; i++ {
 		ins = append(ins, GenInput(p.job.Seed, i, p.corpus))
 	}
@@ -490,7 +551,8 @@ var modes = []string{"stream", "whole"}
 func (c *child) runUnit(u int) *unitResult {
 	c.loadBad()
 	ins, perCall := c.plan.inputs(u)
-	res := &unitResult{Unit: u, Inputs: len(ins), ByClass: map[string]int{}, ByKind: map[string]int{}, ByLabel: map[string]int{}, OkByTarget: map[string]int{}}
+	ncases := c.plan.nestCases(u)
+	res := &unitResult{NestBySchema: map[string]int{}, Unit: u, Inputs: len(ins), ByClass: map[string]int{}, ByKind: map[string]int{}, ByLabel: map[string]int{}, OkByTarget: map[string]int{}}
 	ag := &agg{m: map[string]*Disagreement{}}
 	verd := make([]V, len(ins))
 	className := [4]string{"bad", "def", "indef", "len"}
@@ -573,8 +635,34 @@ func (c *child) runUnit(u int) *unitResult {
 			res.Ok++
 			res.OkByTarget[t.Name]++
 		}
-		if kind := judge(t, modes[mi], in.B, verd[ii], o); kind != "" {
-			ag.add(keyOf(kind, t, in.B, verd[ii], o), example(t, modes[mi], in, verd[ii], o))
+		var nv []int
+		if ncases != nil {
+			nv = ncases[ii].V
+			if nc := &ncases[ii]; nc.Ctl && mi == 1 && metered == perCall {
+				for _, f := range nc.For {
+					if f == t.Name {
+						if o.ok {
+							res.NestControls++
+						} else {
+							res.NestCtlFailed = append(res.NestCtlFailed, fmt.Sprintf("%s refuses the honest instance %s (%x): %s%s", t.Name, nc.Label, in.B, o.err, o.pan))
+						}
+					}
+				}
+			}
+		}
+		if metered == perCall && t.Schema != nil && verd[ii].Class != ClassBad && mustRefuseNested(t, in.B, verd[ii], nv) {
+			res.NestMustRefuse++
+			res.NestBySchema[t.SchemaName+"|"+in.Kind]++
+		}
+		if kind := judge(t, modes[mi], in.B, verd[ii], o, nv); kind != "" {
+			ex := example(t, modes[mi], in, verd[ii], o)
+			switch kind {
+			case "ok-nested-inexact":
+				ex.Expected = fmt.Sprintf("Error (schema %s of Cbor_Nest.tla: a byte string at a nested position of this target does not hold exactly one item)", t.SchemaName)
+			case "ok-wrap-inexact":
+				ex.Expected = "Error (the content of the byte string is not exactly one item: Cbor.tla WrappedExact)"
+			}
+			ag.add(keyOf(kind, t, in.B, verd[ii], o), ex)
 		}
 	}
 	if perCall {
@@ -591,7 +679,13 @@ func (c *child) runUnit(u int) *unitResult {
 		// exhaustive 3-byte batches: stream mode for every prefix, whole-buffer mode (which adds only the
 		// trailing-data check of cbor.Unmarshal to what stream mode observes) for every fourth prefix
 		thin := c.plan.job.All3 && len(ins) > 0 && ins[0].Kind == "exhaustive-len3" && (int(ins[0].B[0])<<8|int(ins[0].B[1]))%4 != 0
+		// quick tier: the composite targets (COSE structures with typed payloads, message re-declarations: compositions
+		// of decoders that are targets themselves) are not run on the bulk of 3-byte strings
+		skipComposite := c.plan.job.Tier != "thorough" && len(ins) > 0 && (ins[0].Kind == "tlc-table-len3" || ins[0].Kind == "exhaustive-len3")
 		for ti := range c.targets {
+			if skipComposite && c.targets[ti].Composite {
+				continue
+			}
 			for mi := range modes {
 				if thin && mi == 1 {
 					continue
@@ -651,6 +745,12 @@ func RunChild(jobPath string, shard, of, from int, skip []string, partial, statu
 		return 2
 	}
 	c := &child{plan: newPlan(&job), targets: Targets(), skip: map[string]bool{}, bad: map[string]bool{}, badSeen: map[string]int{}, badPath: badPath}
+	if job.Nest != nil {
+		if err := BindSchemas(c.targets, job.Nest); err != nil {
+			fmt.Fprintln(os.Stderr, err)
+			return 2
+		}
+	}
 	for _, s := range skip {
 		c.skip[s] = true
 	}
@@ -704,6 +804,7 @@ type SweepOpts struct {
 	Tier    string
 	Seed    int64
 	Table   string // JSON list of TableLine (optional)
+	Nest    string // JSON list of NestLine: output of Cbor_Nest.tla (optional)
 	Out     string
 	Workers int
 	Sample3 int // number of random 2-byte prefixes in the quick tier
@@ -770,7 +871,7 @@ func CrossCheckTable(lines []TableLine, res *SweepResult) (table3, shapes [][]by
 
 // RunSweep is the parent: plans the units, runs the children, merges their results.
 func RunSweep(o SweepOpts) (*SweepResult, error) {
-	res := &SweepResult{ByClass: map[string]int{}, ByKind: map[string]int{}, Labels: map[string]int{}, OkByTarget: map[string]int{}, Targets: len(Targets())}
+	res := &SweepResult{ByClass: map[string]int{}, ByKind: map[string]int{}, Labels: map[string]int{}, OkByTarget: map[string]int{}, Targets: len(Targets()), NestBySchema: map[string]int{}}
 	job := &Job{Seed: o.Seed, Tier: o.Tier, NSeeded: o.NSeeded}
 	if o.Table != "" {
 		data, err := os.ReadFile(o.Table)
@@ -790,6 +891,16 @@ func RunSweep(o SweepOpts) (*SweepResult, error) {
 				job.Table3 = append(job.Table3, hex.EncodeToString(b))
 			}
 		}
+	}
+	if o.Nest != "" {
+		nt, lines, err := LoadNest(o.Nest)
+		if err != nil {
+			return nil, err
+		}
+		if err := BindSchemas(Targets(), nt); err != nil {
+			return nil, err
+		}
+		job.Nest, job.NestCases = nt, CrossCheckNest(nt, lines, res)
 	}
 	if o.Tier == "thorough" {
 		job.All3 = true
@@ -817,6 +928,9 @@ func RunSweep(o SweepOpts) (*SweepResult, error) {
 			}
 		}
 	}
+	for _, b := range NestMsgs(cr, env) {
+		job.Corpus = append(job.Corpus, hex.EncodeToString(b))
+	}
 	jobPath := o.Dir + "/sweep-job.json"
 	data, _ := json.Marshal(job)
 	if err := os.WriteFile(jobPath, data, 0o644); err != nil {
@@ -825,6 +939,9 @@ func RunSweep(o SweepOpts) (*SweepResult, error) {
 	pl := newPlan(job)
 	res.Units = pl.units()
 	targets := Targets()
+	if job.Nest != nil {
+		_ = BindSchemas(targets, job.Nest)
+	}
 
 	ag := &agg{m: map[string]*Disagreement{}}
 	badPath := o.Dir + "/sweep-bad.txt"
@@ -942,6 +1059,12 @@ func RunSweep(o SweepOpts) (*SweepResult, error) {
 				res.MaxCallMs = ur.MaxCallMs
 			}
 			res.Skipped += ur.Skipped
+			res.NestControls += ur.NestControls
+			res.NestCtlFailed = append(res.NestCtlFailed, ur.NestCtlFailed...)
+			res.NestMustRefuse += ur.NestMustRefuse
+			for c, n := range ur.NestBySchema {
+				res.NestBySchema[c] += n
+			}
 		}
 		f.Close()
 	}
